@@ -57,12 +57,14 @@ def main():
             continue
         alarms = sorted(p for p, (rc, _l) in res.items() if rc == 1)
         errs = sorted(p for p, (rc, _l) in res.items() if rc == 2)
+        documented = sorted(set(errs) & set(m.get("undecided", [])))
+        errs = [p for p in errs if p not in documented]
         v["alarms"] = {p: {"rc": rc, "lines": l} for p, (rc, l) in res.items() if rc == 1}
         v["analysis_errors"] = {p: {"rc": rc, "lines": l} for p, (rc, l) in res.items() if rc == 2}
         json.dump(m, open(mp, "w"), indent=1)
         n_alarm += bool(alarms)
         n_err += bool(errs) and not alarms
-        print(f"{nid:8s} alarms={alarms} analysis_errors={errs}" + ("" if (alarms or errs) else "  silent"))
+        print(f"{nid:8s} alarms={alarms} analysis_errors={errs}" + (f" undecided(documented)={documented}" if documented else "") + ("" if (alarms or errs) else "  silent"))
         if verbose:
             for p, (rc, l) in res.items():
                 for x in l[:2]:
